@@ -486,7 +486,7 @@ def c12(tier):
                     ["ModelC12", "ModelC09"])
     run.model("MC_Doc", cfg)
     # one test per transition of the glyph tables: every modelled character with at most K neighbours
-    modelled = [45, 126, 124, 58, 33, 43, 46, 39, 44, 96, 95, 61, 47, 92, 40, 41, 62, 60, 94, 118, 86, 42, 111, 79, 88]
+    modelled = [45, 126, 124, 58, 33, 43, 46, 39, 44, 96, 95, 61, 47, 92, 40, 41, 62, 60, 94, 118, 86, 42, 111, 79, 88, 8217]
     cfgn = write_cfg("MC_Nbhd", {"K": 1 if tier == "quick" else 2, "Centres": tla_set(modelled), "Around": tla_set(modelled)},
                      ["ModelC09", "ModelC05", "ModelC12", "Emit"])
     resn = run.model("MC_Nbhd", cfgn, timeout=10000)
